@@ -120,7 +120,16 @@ message Grid {
 }
 """,
 }
-QUICK_SEEDS = ["basic", "nested", "imports", "empty", "arith", "semis"]
+SEEDS["odd"] = """proto odd
+option c.struct_packing_alignment = 8
+option c.name_prefix = "odd_"
+const ONLY = 1
+enum Alone : uint64 { ALONE_MAX = 18446744073709551615 }
+type Bits = bool[1]'
+message Shell { message A { message B { message C {} } } }
+message Holder' { Shell s = 255; Shell.A.B.C[1] cs = 1; Bits b = 2; Alone[2]' as = 3 }
+"""
+QUICK_SEEDS = ["basic", "nested", "imports", "empty", "arith", "semis", "odd"]
 
 AUX = {
     "lib.bitproto": "proto lib\n\nconst LK = 2\n\nenum LE : uint2 {\n    LE_A = 0\n}\n\nmessage LM {\n    bool z = 1\n}\n",
